@@ -150,6 +150,83 @@ theorem C18_no_finish_panic (comp : Option Codec) (version extra : UInt8) (hx : 
     · cases h
     · simp at h
 
+/-! ### every body is delivered -/
+
+/-- what `build` answers when it fails -/
+theorem build_err (f : Framer) (fl op : UInt8) (s : Int) (body : Bytes) (e : Err)
+    (h : f.build fl op s body = .error e) :
+    (e = .tooBig ∧ maxFrameSize < f.headSize + body.length) ∨
+    (e = .panic ∧ fl &&& flagCompress = flagCompress ∧ f.comp = none) ∨
+    (e = .codec ∧ fl &&& flagCompress = flagCompress ∧ ∃ c u, f.comp = some c ∧ c.enc body = .error u) := by
+  unfold Framer.build Framer.finish at h
+  rw [f.flag_of_buf] at h
+  obtain ⟨_, hd⟩ := f.split_buf fl op s body
+  have hl : (f.writeHeader fl op s).length = f.headSize := by
+    rw [f.writeHeader_eq]; simp [f.hdr5_length]; have := f.headSize_ge; omega
+  split at h
+  · rename_i hbig
+    left; injection h with h
+    refine ⟨h.symm, ?_⟩
+    simpa [hl] using hbig
+  · by_cases hc : fl &&& flagCompress = flagCompress
+    · simp only [hc, beq_self_eq_true, if_true] at h
+      rw [hd] at h
+      cases hcomp : f.comp with
+      | none => simp only [hcomp] at h; injection h with h; exact .inr (.inl ⟨h.symm, hc, rfl⟩)
+      | some c =>
+        simp only [hcomp] at h
+        cases he : c.enc body with
+        | error u => simp only [he] at h; injection h with h; exact .inr (.inr ⟨h.symm, hc, c, u, rfl, he⟩)
+        | ok z => simp [he] at h
+    · have : (fl &&& flagCompress == flagCompress) = false := by simpa using hc
+      simp [this] at h
+
+/-- the framers a connection makes: `newFramer`, then flag bits other than the compress bit or-ed in
+    (tracing 0x02, custom payload 0x04, …) -/
+def connFramer (comp : Option Codec) (version extra : UInt8) : Framer :=
+  { newFramer comp version with flags := (newFramer comp version).flags ||| extra }
+
+/-- **Every body is delivered.** With a compressor that round-trips and whose Encode does not fail
+    (or with none), on a framer the connection makes, for every request kind, stream and every body
+    that fits a frame: the request IS built (no error, no panic) and a reader with the same
+    compressor gets back exactly the body. An Encode error for a valid body is therefore a violation
+    of the property, not an accepted outcome (ops `rt`, `hyp`, `lz4rt`). -/
+theorem C18_delivered (comp : Option Codec) (version extra : UInt8) (hx : extra &&& 1 = 0)
+    (hv : ValidProto (connFramer comp version extra))
+    (hc : ∀ c, comp = some c → c.RoundTrips ∧ c.Total)
+    (r : Req) (s : Int) (body : Bytes)
+    (hsz : 9 + body.length ≤ maxFrameSize)
+    (hz : ∀ c z, comp = some c → c.enc body = .ok z → z.length ≤ maxFrameSize) :
+    ∃ wire, (connFramer comp version extra).buildReq r s body = .ok wire ∧
+      (connFramer comp version extra).decode wire =
+        .ok ((connFramer comp version extra).headOf (r.headerFlags (connFramer comp version extra)) r.opcode s
+              (wire.length - (connFramer comp version extra).headSize), body) := by
+  have hcomp : (connFramer comp version extra).comp = comp := rfl
+  have hhs : (connFramer comp version extra).headSize ≤ 9 := by unfold Framer.headSize; split <;> omega
+  cases hb : (connFramer comp version extra).buildReq r s body with
+  | error e =>
+    exfalso
+    rcases build_err _ _ _ s body e hb with ⟨_, hbig⟩ | ⟨he, _, _⟩ | ⟨_, _, c, u, hcc, hu⟩
+    · omega
+    · subst he; exact C18_no_finish_panic comp version extra hx r s body hb
+    · rw [hcomp] at hcc
+      obtain ⟨y, hy⟩ := (hc c hcc).2 body
+      rw [hy] at hu; cases hu
+  | ok wire =>
+    refine ⟨wire, rfl, ?_⟩
+    have hb' : (connFramer comp version extra).build (r.headerFlags (connFramer comp version extra)) r.opcode s body = .ok wire := hb
+    apply C18_transparent _ hv (fun c h => (hc c (hcomp ▸ h)).1) _ _ s body wire hb'
+    rcases Framer.build_ok _ _ _ s body wire hb' with ⟨_, c, z, hcc, henc, hw⟩ | ⟨_, hw⟩
+    · subst hw; rw [frame_payload_length]; exact hz c z (hcomp ▸ hcc) henc
+    · subst hw; rw [frame_payload_length]; omega
+
+example :
+    let c : Codec := { enc := fun x => .ok (0xAA :: x), dec := fun y => .ok (y.drop 1) }
+    ((connFramer (some c) 4 2).buildReq .query 1 [1, 2, 3]).toOption = some [4, 3, 0, 1, 7, 0, 0, 0, 4, 0xAA, 1, 2, 3] ∧
+    ((connFramer (some c) 4 2).decode [4, 3, 0, 1, 7, 0, 0, 0, 4, 0xAA, 1, 2, 3]).toOption =
+      some ({ version := 4, flags := 3, stream := 1, op := 7, length := 4 }, [1, 2, 3]) := by
+  decide
+
 /-! ### lz4 wrapper -/
 
 theorem lz4Decode_be32 (b : BlockCodec) (n : Nat) (hn : n < 4294967296) (z : Bytes) :
@@ -158,12 +235,25 @@ theorem lz4Decode_be32 (b : BlockCodec) (n : Nat) (hn : n < 4294967296) (z : Byt
   simp [lz4Decode, lz4Prefix, be32, hr]
   omega
 
+/-- **The destination lz4.go allocates is large enough.** `make([]byte, CompressBlockBound(len+4))`
+    minus the 4 prefix bytes is never below `CompressBlockBound(len)`: the block encoder is always
+    called inside its documented no-failure domain. (An input-sized first attempt, a bound computed
+    after slicing, a hand-made `len + len/255` … all break exactly this inequality.) -/
+theorem C18_lz4_dst_bound (n : Nat) : blockBound n ≤ lz4DstLen n := by
+  unfold lz4DstLen blockBound; omega
+
+/-- **lz4 Encode never fails** for any body, given the documented contract of the block encoder. -/
+theorem C18_lz4_encode_total (b : BlockCodec) (ht : b.TotalAtBound) (x : Bytes) :
+    ∃ z, b.encB x (lz4DstLen x.length) = .ok z ∧ lz4Encode b x = .ok (be32 x.length ++ z) := by
+  obtain ⟨z, hz⟩ := ht x (lz4DstLen x.length) (C18_lz4_dst_bound x.length)
+  exact ⟨z, hz, by simp [lz4Encode, hz]⟩
+
 /-- **lz4 length prefix.** Given the block codec round-trips, the wrapper round-trips for every
     body shorter than 2³² (the frame size limit is 2²⁸), including the empty body. -/
 theorem C18_lz4_prefix (b : BlockCodec) (hb : b.RoundTrips) (x y : Bytes) (hx : x.length < 4294967296)
     (he : lz4Encode b x = .ok y) : lz4Decode b y = .ok x := by
   unfold lz4Encode at he
-  cases hz : b.encB x with
+  cases hz : b.encB x (lz4DstLen x.length) with
   | error e => simp [hz] at he
   | ok z =>
     simp only [hz] at he
@@ -173,14 +263,47 @@ theorem C18_lz4_prefix (b : BlockCodec) (hb : b.RoundTrips) (x y : Bytes) (hx : 
     by_cases h0 : x.length = 0
     · have : x = [] := List.eq_nil_of_length_eq_zero h0
       simp [this]
-    · simp [h0, hb x z hz]
+    · have hne : x ≠ [] := fun h => h0 (by simp [h])
+      simp [h0, hb x _ z hne (C18_lz4_dst_bound x.length) hz]
 
 /-- the lz4 wrapper as a gocql Compressor satisfies the transparency hypothesis for bodies below 2³² -/
 theorem C18_lz4_codec (b : BlockCodec) (hb : b.RoundTrips) (x y : Bytes) (hx : x.length < 4294967296)
     (he : (lz4 b).enc x = .ok y) : (lz4 b).dec y = .ok x := C18_lz4_prefix b hb x y hx he
 
+/-- … and the totality hypothesis -/
+theorem C18_lz4_codec_total (b : BlockCodec) (ht : b.TotalAtBound) : (lz4 b).Total := fun x =>
+  let ⟨_, _, h⟩ := C18_lz4_encode_total b ht x
+  ⟨_, h⟩
+
+/-- **What an independent reader of Cassandra's lz4 framing sees** (op `lz4rt`): for every body
+    below 2³² Encode succeeds, the first four bytes are the big-endian body length, the rest is a
+    block that the block decoder (called directly, with a destination of that length) turns back
+    into the body (a reader does not call it for length 0), and the wrapper's own Decode agrees. -/
+theorem C18_lz4_delivered (b : BlockCodec) (hb : b.RoundTrips) (ht : b.TotalAtBound) (x : Bytes)
+    (hx : x.length < 4294967296) :
+    ∃ y, lz4Encode b x = .ok y ∧ 4 ≤ y.length ∧ lz4Prefix y = x.length ∧
+         (x ≠ [] → b.decB (y.drop 4) x.length = .ok x) ∧ lz4Decode b y = .ok x := by
+  obtain ⟨z, hz, he⟩ := C18_lz4_encode_total b ht x
+  refine ⟨_, he, by simp [be32_length], ?_, ?_, C18_lz4_prefix b hb x _ hx he⟩
+  · have hr := readBE32_be32 x.length hx
+    simp [lz4Prefix, be32, hr]
+  · have : (be32 x.length ++ z).drop 4 = z := List.drop_left' (be32_length _)
+    rw [this]; exact fun hne => hb x _ z hne (C18_lz4_dst_bound x.length) hz
+
+/-- FULL STATEMENT ("Encode never fails, whatever buffer strategy") does not hold for a wrapper that
+    hands the block encoder LESS than the bound: kernel-checked witness of the library behaviour the
+    seeded `len(data)`-sized first attempt ran into — a block encoder that honours its contract
+    (total and round-tripping at the bound) yet reports a short destination as an error. -/
+theorem C18_cex_short_dst_fails :
+    let b : BlockCodec := { encB := fun x n => if blockBound x.length ≤ n then .ok x else .error (),
+                            decB := fun z _ => .ok z }
+    b.RoundTrips ∧ b.TotalAtBound ∧ b.encB [1, 2, 3] 3 = .error () := by
+  refine ⟨?_, ?_, by simp [blockBound]⟩
+  · intro x n z _ hn h; simp [hn] at h; simp [h]
+  · intro x n hn; exact ⟨x, by simp [hn]⟩
+
 /-- empty body: prefix 00000000, decoded without calling the block decoder -/
-theorem C18_lz4_empty (b : BlockCodec) (z : Bytes) (h : b.encB [] = .ok z) :
+theorem C18_lz4_empty (b : BlockCodec) (z : Bytes) (h : b.encB [] (lz4DstLen 0) = .ok z) :
     lz4Encode b [] = .ok ([0, 0, 0, 0] ++ z) ∧ lz4Decode b ([0, 0, 0, 0] ++ z) = .ok [] := by
   simp [lz4Encode, lz4Decode, lz4Prefix, h, be32, readBE32]
 
@@ -200,7 +323,7 @@ theorem C18_lz4_corrupt (b : BlockCodec) (d : Bytes) (h4 : 4 ≤ d.length)
 theorem C18_lz4_wraps (b : BlockCodec) (x y : Bytes) (hx : x.length = 4294967296)
     (he : lz4Encode b x = .ok y) : lz4Decode b y = .ok [] := by
   unfold lz4Encode at he
-  cases hz : b.encB x with
+  cases hz : b.encB x (lz4DstLen x.length) with
   | error e => simp [hz] at he
   | ok z =>
     simp only [hz] at he
@@ -209,7 +332,7 @@ theorem C18_lz4_wraps (b : BlockCodec) (x y : Bytes) (hx : x.length = 4294967296
     simp [lz4Decode, lz4Prefix, be32, hx, readBE32]
 
 example :
-    let b : BlockCodec := { encB := fun x => .ok (0x55 :: x), decB := fun y n => .ok ((y.drop 1).take n) }
+    let b : BlockCodec := { encB := fun x _ => .ok (0x55 :: x), decB := fun y n => .ok ((y.drop 1).take n) }
     (lz4Encode b [7, 8]).toOption = some [0, 0, 0, 2, 0x55, 7, 8] ∧
     (lz4Decode b [0, 0, 0, 2, 0x55, 7, 8]).toOption = some [7, 8] ∧
     (lz4Decode b [0, 0, 0]).toOption = none := by decide
@@ -219,7 +342,7 @@ example :
     with the declared length, so a body whose prefix over-declares is accepted and returned short.
     Kernel-checked witness (block decoder = "copy"): prefix says 5, one byte comes back, no error. -/
 theorem C18_cex_lz4_length_unchecked :
-    let b : BlockCodec := { encB := fun x => .ok x, decB := fun src n => .ok (src.take n) }
+    let b : BlockCodec := { encB := fun x _ => .ok x, decB := fun src n => .ok (src.take n) }
     lz4Prefix [0, 0, 0, 5, 0x41] = 5 ∧ (lz4Decode b [0, 0, 0, 5, 0x41]).toOption = some [0x41] := by decide
 
 /-! ### negotiation -/
